@@ -33,7 +33,7 @@ type c10End struct {
 
 func c10(tier string) []*explore.Scenario {
 	var out []*explore.Scenario
-	sets := []string{"", "o", "U", "R", "X", "S", "oU", "UR", "RX", "oS", "URX", "UU", "RR", "Z", "ZR", "oZ", "T", "D", "TD", "UT", "DX"}
+	sets := []string{"", "o", "U", "R", "X", "S", "oU", "UR", "RX", "oS", "URX", "UU", "RR", "Z", "ZR", "oZ", "T", "D", "TD", "UT", "DX", "B", "UB", "RB", "oB", "BB", "XBo"}
 	// more blocked unary handlers than the pool has workers (8): the 9th/10th request waits in the read loop
 	sets = append(sets, "UUUUUUUUU", "UUUUUUUUUU", "UUUUUUUUUo", "UUUUUUUUUR")
 	// the statement's full range (8 unary and 8 streaming handlers in flight), default schedule
@@ -64,7 +64,7 @@ func c10(tier string) []*explore.Scenario {
 			out = append(out, c10One(set, c10End{"read", k}, bound))
 			out = append(out, c10One(set, c10End{"stop", k}, bound))
 		}
-		nresp := strings.Count(set, "o") + 2*strings.Count(set, "S") + 2*strings.Count(set, "e")
+		nresp := strings.Count(set, "o") + 2*strings.Count(set, "S") + 2*strings.Count(set, "e") + strings.Count(set, "B")
 		for k := 0; k < nresp; k++ {
 			out = append(out, c10One(set, c10End{"write", k}, bound))
 		}
@@ -202,7 +202,7 @@ func c10Reqs(c rune) int {
 	switch c {
 	case 'o', 'U', 'T':
 		return 1
-	case 'R', 'X', 'S', 'D':
+	case 'R', 'X', 'S', 'D', 'B':
 		return 1
 	case 'Z':
 		return 2
@@ -263,6 +263,9 @@ func c10One(set string, end c10End, bound int) *explore.Scenario {
 					req := env.ReqUnary(id, tag, "x")
 					req.Header.Headers = append(req.Header.Headers, kv("GRPC-Timeout", "1H"), kv("x-k", "v"))
 					script = append(script, req)
+				case 'B':
+					// a message for a stream the server does not know: the server's answer is a reset (no handler)
+					script = append(script, env.ReqBody(id, env.MBidi, "x"))
 				case 'Z':
 					r := w.Rec(tag, "Bidi")
 					recs = append(recs, r)
@@ -323,7 +326,7 @@ func c10One(set string, end c10End, bound int) *explore.Scenario {
 			})
 			// a reader for the peer side: takes responses of immediate unary calls only,
 			// so that 'S' handlers really block in SendMsg
-			nread := strings.Count(set, "o")
+			nread := strings.Count(set, "o") + strings.Count(set, "B")
 			vsched.GoNamed("peer-reader", func() {
 				for i := 0; i < nread; i++ {
 					if _, err := d.Pipe.A.Read(context.Background()); err != nil {
@@ -335,7 +338,10 @@ func c10One(set string, end c10End, bound int) *explore.Scenario {
 			// the connection must have ended unless the planned fault position was never reached
 			ended := d.Pipe.B.ReadFailed || end.kind == "stop" || (end.kind == "write" && d.Pipe.B.NWritten >= end.at && d.ServeDone)
 			if end.kind == "write" && !d.ServeDone {
-				// the write fault position may not have been reached (handlers blocked before): end by transport break
+				if d.Pipe.B.WriteFaulted && !strings.Contains(set, "Z") { // (a Z handler is only released below: Serve waits for it)
+					vsched.Fail(fam+"|serve-hang", "the transport refused a write of the server (response %d, in flight %q) but Serve did not return; live threads: %s", end.at, set, threadList())
+				}
+				// else: the write fault position was not reached (handlers blocked before): end by transport break
 				ended = false
 			}
 			_ = peerDone
